@@ -36,8 +36,9 @@ CLAIMED["C12"] = dict(
          "dereferenced only on paths on which it cannot be null; the 27-entry task arrays handed to every TaskContext::execute "
          "receive at most 27 entries per task; pool resets clear every released element; every subscript and block move on the task "
          "queue's heap array stays inside the allocation under the class invariant size <= capacity (adding methods under the "
-         "stated assumption that callers leave room). One known finding (RHD driver with `PhotonSourceDistribution: type: None`). "
-         "Does not decide the index bounds of other arrays or exit status as such.",
+         "stated assumption that callers leave room); a per-block container that a driver hands to a task context by reference is as long "
+         "as the loops that index it there (size terms compared across the construction site). One known finding (RHD driver with "
+         "`PhotonSourceDistribution: type: None`). Does not decide the index bounds of other arrays or exit status as such.",
     note="Trusted: clang front end and AST export. A member handed out by address/reference is assumed initialised by the callee; "
          "factory functions are taken as non-null only when every reachable return statement returns `new`.")
 
@@ -158,7 +159,9 @@ CLAIMED["C10"] = dict(
          "undivided grid with the two adjacent cells (left = last layer of the left grid, right = first layer of the right grid, one shared "
          "column/row map, this/neighbour per side, axis quantities of that axis), that gradient and flux sweeps agree, that every hydro task "
          "type runs the sweep of its kind on the face/neighbour stored in the task, and that every sweep touching a subgrid precedes that "
-         "subgrid's next phase in the task graph (C07 rules G1, G2, G4, G8 re-checked). Summation round-off and bit reproducibility are not decided.",
+         "subgrid's next phase in the task graph (C07 rules G1, G2, G4, G8 re-checked), and that within a phase the face operations and the "
+         "sweeps themselves only accumulate into what the phase accumulates (they commute). Summation round-off and bit reproducibility are "
+         "not decided.",
     note="Trusted: clang, AST export, sympy polynomial arithmetic; assumption A1 (neighbour tables) and C08 container guarantees.")
 
 CLAIMED["C04"] = dict(
@@ -197,7 +200,8 @@ CLAIMED["C20"] = dict(
     technique="static analysis: extraction of the unit table, SI-name table, conversion list and of every default unit literal in the "
               "library (call-site query over all units) with exact rational consistency checks; structural stack-discipline rule on the YAML parser; "
               "writer/reader name-table agreement for the HDF5 snapshot (string patterns resolved through the field-name switch); "
-              "path-partitioned provenance (dataset-label) dataflow over the snapshot readers' value path",
+              "path-partitioned provenance (dataset-label) dataflow over the snapshot readers' value path; forward size-term dataflow "
+              "(with staleness at loop heads) over the snapshot writer's block buffers",
     text="Decides the self-consistency of the built-in tables and of all their users: SI-prefixed table entries differ from their base unit by "
          "exactly the prefix power; every quantity has an SI name made of factor-1 table units; every default unit literal passed to "
          "get_physical_value/get_physical_vector anywhere in the library parses and has the dimension of its quantity (or a registered "
@@ -206,7 +210,7 @@ CLAIMED["C20"] = dict(
          "snapshot reader asks for is one the snapshot writer produces, stored unit values x conversion applied = 1, and parameter keys read "
          "back from a snapshot are keys the components read; on the paths that read the stored density, temperature and neutral fractions "
          "no value derived from a dataset is an unguarded denominator and each value handed to a cell derives from the dataset of its "
-         "quantity. The parse/print round trip for arbitrary trees, printed precision and the "
+         "quantity; every buffer the writer hands to append_dataset has exactly the size of the block gathered into it. The parse/print round trip for arbitrary trees, printed precision and the "
          "HDF5 library itself are not decided.",
     note="Trusted: clang, AST export, sympy rationals; literal values are read as written in the source.")
 
